@@ -1,0 +1,245 @@
+//go:build verif
+
+package http2
+
+import (
+	"crypto/tls"
+	"net"
+	"sync"
+	"sync/atomic"
+)
+
+// Verification hooks, compiled only with the "verif" build tag. They add
+// counters and observers the /verif harness reads; they add no
+// synchronisation the library relies on.
+
+const verifEnabled = true
+
+// Exported names of the hook indexes, for the harness.
+const (
+	VerifEvForwarded      = verifEvForwarded
+	VerifEvTaken          = verifEvTaken
+	VerifEvHandlerStart   = verifEvHandlerStart
+	VerifEvHandlerReport  = verifEvHandlerReport
+	VerifEvHandlerTaken   = verifEvHandlerTaken
+	VerifEvQueued         = verifEvQueued
+	VerifEvDropped        = verifEvDropped
+	VerifEvWritten        = verifEvWritten
+	VerifEvReadLoopExit   = verifEvReadLoopExit
+	VerifEvStreamLoopExit = verifEvStreamLoopExit
+	VerifEvWriteLoopExit  = verifEvWriteLoopExit
+	VerifEvReadIter       = verifEvReadIter
+	VerifEvInQueued       = verifEvInQueued
+	VerifEvInTaken        = verifEvInTaken
+	VerifEvOutQueued      = verifEvOutQueued
+	VerifEvOutTaken       = verifEvOutTaken
+	VerifEvServeReturn    = verifEvServeReturn
+)
+
+// VerifServerStats is what the harness can observe of one server connection.
+type VerifServerStats struct {
+	Ev   [verifEvCount]atomic.Int64
+	Busy atomic.Int32
+
+	// gauges, published by the stream loop at the top of every iteration
+	Streams      atomic.Int64 // len(strms)
+	OpenStreams  atomic.Int64
+	ClosedRing   atomic.Int64
+	ClosedSet    atomic.Int64
+	HeaderBytes  atomic.Int64 // sum of len(previousHeaderBytes)
+	BodyBytes    atomic.Int64 // sum of buffered request body bytes
+	WriterLen    atomic.Int64
+	ReaderLen    atomic.Int64
+	MaxStreams   atomic.Int64 // high-water marks
+	MaxHeaderBuf atomic.Int64
+	MaxBodyBuf   atomic.Int64
+	MaxClosedSet atomic.Int64
+	MaxWriterLen atomic.Int64
+}
+
+var verifServers sync.Map // net.Conn -> *VerifServerStats
+
+// VerifServerStatsFor returns (creating it if needed) the stats object of the
+// server connection that is or will be served on c.
+func VerifServerStatsFor(c net.Conn) *VerifServerStats {
+	v, _ := verifServers.LoadOrStore(c, &VerifServerStats{})
+	return v.(*VerifServerStats)
+}
+
+// VerifForget drops the stats kept for c.
+func VerifForget(c net.Conn) {
+	verifServers.Delete(c)
+	verifClients.Delete(c)
+}
+
+type verifServer struct {
+	st *VerifServerStats
+}
+
+func (v *verifServer) register(sc *serverConn) {
+	v.st = VerifServerStatsFor(sc.c)
+}
+
+func (v *verifServer) ev(i int) {
+	if v.st != nil {
+		v.st.Ev[i].Add(1)
+	}
+}
+
+func (v *verifServer) busy() {
+	if v.st != nil {
+		v.st.Busy.Store(1)
+	}
+}
+
+func verifMax(a *atomic.Int64, n int64) {
+	if n > a.Load() {
+		a.Store(n)
+	}
+}
+
+func (v *verifServer) idle(strms Streams, openStreams, ringLen, setLen, writerLen, readerLen int) {
+	st := v.st
+	if st == nil {
+		return
+	}
+
+	var hb, bb int64
+	for _, s := range strms {
+		hb += int64(len(s.previousHeaderBytes))
+		if s.ctx != nil && !s.handlerRunning {
+			bb += int64(s.recvBody)
+		}
+	}
+
+	st.Streams.Store(int64(len(strms)))
+	st.OpenStreams.Store(int64(openStreams))
+	st.ClosedRing.Store(int64(ringLen))
+	st.ClosedSet.Store(int64(setLen))
+	st.HeaderBytes.Store(hb)
+	st.BodyBytes.Store(bb)
+	st.WriterLen.Store(int64(writerLen))
+	st.ReaderLen.Store(int64(readerLen))
+	verifMax(&st.MaxStreams, int64(len(strms)))
+	verifMax(&st.MaxHeaderBuf, hb)
+	verifMax(&st.MaxBodyBuf, bb)
+	verifMax(&st.MaxClosedSet, int64(setLen))
+	verifMax(&st.MaxWriterLen, int64(writerLen))
+	st.Busy.Store(0)
+}
+
+// VerifClientStats is what the harness can observe of one client connection.
+type VerifClientStats struct {
+	Ev      [verifEvCount]atomic.Int64
+	Busy    atomic.Int32
+	WinSeq  atomic.Int64
+	WinSeen atomic.Int64
+	conn    atomic.Pointer[Conn]
+}
+
+// Conn returns the client connection these stats belong to, once registered.
+func (s *VerifClientStats) Conn() *Conn { return s.conn.Load() }
+
+var verifClients sync.Map // net.Conn (the raw conn under TLS) -> *VerifClientStats
+
+// VerifClientStatsFor returns (creating it if needed) the stats object of the
+// client connection that runs or will run over the raw connection c (the
+// net.Conn the dial function returned, i.e. the one under TLS).
+func VerifClientStatsFor(c net.Conn) *VerifClientStats {
+	v, _ := verifClients.LoadOrStore(c, &VerifClientStats{})
+	return v.(*VerifClientStats)
+}
+
+type verifClient struct {
+	st *VerifClientStats
+}
+
+func (v *verifClient) register(c *Conn) {
+	raw := c.c
+	if tc, ok := raw.(*tls.Conn); ok {
+		raw = tc.NetConn()
+	}
+
+	v.st = VerifClientStatsFor(raw)
+	v.st.conn.Store(c)
+}
+
+func (v *verifClient) ev(i int) {
+	if v.st != nil {
+		v.st.Ev[i].Add(1)
+	}
+}
+
+func (v *verifClient) busy() {
+	if v.st != nil {
+		v.st.Busy.Store(1)
+	}
+}
+
+func (v *verifClient) idle() {
+	if v.st != nil {
+		v.st.Busy.Store(0)
+	}
+}
+
+func (v *verifClient) winSignal() {
+	if v.st != nil {
+		v.st.WinSeq.Add(1)
+	}
+}
+
+func (v *verifClient) winTaken() {
+	if v.st != nil {
+		v.st.WinSeen.Store(v.st.WinSeq.Load())
+	}
+}
+
+// Pool kinds reported to the pool observer.
+const (
+	VerifPoolFrame       = verifPoolFrame
+	VerifPoolFrameHeader = verifPoolFrameHeader
+	VerifPoolHeaderField = verifPoolHeaderField
+	VerifPoolStream      = verifPoolStream
+	VerifPoolReqCtx      = verifPoolReqCtx
+	VerifPoolClientCtx   = verifPoolClientCtx
+	VerifPoolHPACK       = verifPoolHPACK
+)
+
+// VerifPoolObserver, when set, is told about every Get (get=true) and Put of a
+// pooled object.
+var VerifPoolObserver atomic.Pointer[func(kind int, get bool, obj interface{})]
+
+func verifPool(kind int, get bool, obj interface{}) {
+	if f := VerifPoolObserver.Load(); f != nil {
+		(*f)(kind, get, obj)
+	}
+}
+
+func verifAcquireHeaderField() *HeaderField {
+	hf := headerPool.Get().(*HeaderField)
+	verifPool(VerifPoolHeaderField, true, hf)
+
+	return hf
+}
+
+// VerifNextField exposes the block-level field decoder the server uses:
+// blockStart says whether b is the start of a header block, fieldsProcessed
+// how many fields of this block have been decoded already.
+func (hp *HPACK) VerifNextField(hf *HeaderField, blockStart bool, fieldsProcessed int, b []byte) ([]byte, error) {
+	return hp.nextField(hf, blockStart, fieldsProcessed, b)
+}
+
+// VerifDynamic returns a copy of the dynamic table, newest entry first.
+func (hp *HPACK) VerifDynamic() [][2]string {
+	out := make([][2]string, 0, len(hp.dynamic))
+	for i := len(hp.dynamic) - 1; i >= 0; i-- {
+		out = append(out, [2]string{string(hp.dynamic[i].key), string(hp.dynamic[i].value)})
+	}
+
+	return out
+}
+
+// VerifMaxTableSize returns the current and the settings-imposed table limits.
+func (hp *HPACK) VerifMaxTableSize() (cur, settings uint32) {
+	return hp.maxTableSize, hp.maxTableSizeSettings
+}
